@@ -3,6 +3,7 @@ import Ark.Proofs.ArchIndex
 import Ark.Props.C05Cache
 import Ark.Proofs.GenBridge.BookArchetype
 import Ark.Props.C05Hist
+import Ark.Proofs.GenBridge.BookCache
 
 namespace Ark.Props.C05
 open Ark
@@ -128,5 +129,20 @@ theorem hist_batch_differs_on_empty : type_of% @Ark.Props.C05Hist.batch_differs_
 
 /-- finding: a typed filter object whose type list is not in its mask diverges (not constructible through the typed API) -/
 theorem hist_unguarded_typed_filter_diverges : type_of% @Ark.Props.C05Hist.unguarded_typed_filter_diverges := @Ark.Props.C05Hist.unguarded_typed_filter_diverges
+
+
+/-! ### The code itself: the bookkeeping of cache.go, translated statement by statement on every run -/
+
+/-- `cache.getEntry` as in the source returns the entry the model's lookup finds -/
+theorem src_cache_getEntry : type_of% @Ark.GenBridge.Book.cache_getEntry_eq := @Ark.GenBridge.Book.cache_getEntry_eq
+
+/-- `cache.removeTable` as in the source = the model's: the table leaves every entry's list -/
+theorem src_cache_removeTable : type_of% @Ark.GenBridge.Book.cache_removeTable_eq := @Ark.GenBridge.Book.cache_removeTable_eq
+
+/-- `cache.unregister` as in the source = the model's swap-remove of the entry (unknown IDs panic; the filter's `cache` field is reset) -/
+theorem src_cache_unregister : type_of% @Ark.GenBridge.Book.cache_unregister_eq := @Ark.GenBridge.Book.cache_unregister_eq
+
+/-- `cache.Reset` as in the source = the model's -/
+theorem src_cache_reset : type_of% @Ark.GenBridge.Book.cache_reset_eq := @Ark.GenBridge.Book.cache_reset_eq
 
 end Ark.Props.C05
